@@ -424,12 +424,13 @@ type Action struct {
 }
 
 type AtClause struct {
-	Anchor  string // e.g. "call p.Pace", "send ticks", "return", "go a.attack", "unlock"
-	Count   int    // expected number of matching instructions (0 = at least one)
-	Before  bool   // actions run before the instruction (default: after)
-	Actions []Action
-	Line    int
-	hits    int
+	Anchor   string // e.g. "call p.Pace", "send ticks", "return", "go a.attack", "unlock"
+	Count    int    // expected number of matching instructions (0 = at least one)
+	Before   bool   // actions run before the instruction (default: after)
+	Optional bool   // x*: the anchor may match nothing (assume-only clauses)
+	Actions  []Action
+	Line     int
+	hits     int
 }
 
 type LoopContract struct {
@@ -872,6 +873,11 @@ func (sp *Specs) ParseSpecFile(path string) error {
 				head, body := strings.TrimSpace(rest[:i]), rest[i+1:]
 				ac := &AtClause{Line: l.no, Before: w == "before"}
 				hf := strings.Fields(head)
+				if n := len(hf); n > 0 && hf[n-1] == "x*" {
+					// any number of matches, also none: only for clauses that merely assume
+					ac.Optional = true
+					hf = hf[:n-1]
+				}
 				if n := len(hf); n > 0 && strings.HasPrefix(hf[n-1], "x") {
 					if k, err := strconv.Atoi(hf[n-1][1:]); err == nil {
 						ac.Count = k
